@@ -9,6 +9,7 @@ CONSTANTS
   MaxBlock = 2
   MaxTake = 0
   MaxCrash = 2
+  MaxStep = 2
   MaxZombie = 0
   MaxSnap = 0
   Keeps = {0}
